@@ -33,7 +33,7 @@ func (m *Method) Simplify() any {
 func (m *Method) Call(s *Scope, args List, depth int) Object {
 	for i, c := range m.Combinations {
 		if c.Wrap != nil {
-			loc := &WhopLoc{Method: m, Current: i}
+			loc := &WhopLoc{Method: m, Current: i, Args: args}
 			ws := s.NewScope()
 			ws.Let("~whopper-location~", loc)
 			(c.Wrap.(*Lambda)).Closure = ws
@@ -71,7 +71,7 @@ func (m *Method) primaryCall(s *Scope, args List, depth, start int) Object {
 			// Not Let() which checks for a constant and so takes the
 			// package lock, a generic function can be called with
 			// that lock held.
-			ps.UnsafeLet("~whopper-location~", &WhopLoc{Method: m, Current: i, Primary: true})
+			ps.UnsafeLet("~whopper-location~", &WhopLoc{Method: m, Current: i, Primary: true, Args: args})
 			return primary.Call(ps, args, depth)
 		}
 	}
